@@ -1,5 +1,6 @@
 import Scion.Model.Net
 import Scion.Proofs.Net
+import Scion.Proofs.NetScmp
 /-!
 # C10 — SCMP replies and traceroute answers travel back to the sender
 
@@ -8,28 +9,6 @@ slow-path answer of the real routers is rebuilt by the model).
 -/
 namespace Scion.C10
 open Scion.Net
-
-/-- what a router that stopped a packet sends back, and where: the reply path and the link it
-    leaves on (the link the packet came in on) -/
-def replyOf (o : Out) (arr : Arrival) : Option Cursor :=
-  match o with
-  | .slow _ _ _ c => scmpPrepare c (arr.ifid != 0)
-  | .alert _ _ c => scmpPrepare c (arr.ifid != 0)
-  | _ => none
-
-/-- continue a run with the reply of the router that stopped the packet -/
-def followReply (mac : MacFn) (net : Net) (now src : Nat) (a r : Nat) (arr : Arrival) (rc : Cursor) :
-    Result :=
-  match arr with
-  | .host => .delivered a [] rc
-  | .sibling k => run mac net now a src (fuelFor rc) a k (.sibling r) rc []
-  | .ext i =>
-    match (net a).iface i with
-    | some f =>
-      match (net f.nbr).iface f.nbrIf with
-      | some g => run mac net now a src (fuelFor rc) f.nbr g.owner (.ext f.nbrIf) rc [(a, i), (f.nbr, f.nbrIf)]
-      | none => .lost []
-    | none => .lost []
 
 /-- **C10 at full strength**: on a path as in C02, with any one interface down or unknown, any
     one later hop expired or carrying a wrong MAC, or a router-alert flag on any hop: whenever a
@@ -52,5 +31,46 @@ theorem scmp_internal_is_reverse (c : Cursor) (p : Bool)
     (hx : ((reverseCursor c).isXover && !p) = false) :
     scmpPrepare c false = some (reverseCursor c) := by
   simp [scmpPrepare, hp, hx]
+
+/-- **C10, expired later hop on a segment traversed against construction direction** (up or core
+    segment; one border router per AS; single-segment path — hence `_partial`).
+    Forwarding order of the segment part used: `top` (source AS), `r1`, `ej`, `r2`, `x`.  The two
+    chain hypotheses are the two readings of the invariant every registered segment satisfies
+    (`Scion.C02.registered_is_chain`, `chain_to_up`): `hcU` from the far end, `hcD` from `ej` on,
+    `hβ` says they talk about the same accumulators.  If the hop field of `ej` carried by the
+    packet has expired, the packet is stopped exactly by the AS of `ej` with SCMP 4/52, and the
+    reply the slow path builds (`replyOf` = `prepareSCMP`) is delivered in the source AS.
+    This is the situation of the repaired defect "SCMP replies for expired-hop errors on a segment
+    traversed against construction direction were dropped by the next AS": the proof needs the
+    packet handed to the slow path to carry the SegID *after* the ingress update (`expired_step`). -/
+theorem scmp_reply_delivered_partial (mac : MacFn) (net : Net) (now src dst : Nat) (core : Bool)
+    (ts : Nat) (hWF : WFNet net) (hUp : AllUp net) (hSR : SingleRouter net)
+    (bU βj : Nat) (top : ASE) (r1 : List ASE) (ej : ASE) (r2 : List ASE) (x : ASE) (exp' : Nat)
+    (hcU : ChainUp mac net core ts bU (top :: (r1 ++ ej :: (r2 ++ [x]))))
+    (hcD : Chain mac net core ts βj (ej :: (r1.reverse ++ [top])))
+    (hβ : Scion.SegID.updateSegID (Scion.SegID.extractBeta
+            (Scion.SegID.updateSegID bU (pfx top.hop.mac)) (sig r1)) (pfx ej.hop.mac) = βj)
+    (hsrc : src = top.ia) (hdst : dst = x.ia)
+    (hnd : ((top :: (r1 ++ ej :: (r2 ++ [x]))).map (·.ia)).Nodup)
+    (hexpU : ∀ e ∈ top :: r1, expired now ts e.hop.exp = false)
+    (hexp' : expired now ts exp' = true) (fuel : Nat) :
+    ∃ tr c1 rc trr cr,
+      run mac net now src dst (fuel + 2 + r1.length) src 0 .host
+        ⟨[], ⟨false, false, Scion.SegID.updateSegID bU (pfx top.hop.mac), ts⟩, [], hopOf top.hop,
+          (r1.map fun e => hopOf e.hop) ++ { hopOf ej.hop with exp := exp' } ::
+            ((r2 ++ [x]).map fun e => hopOf e.hop), []⟩ [] =
+        .stopped ej.ia 0 (.ext ej.hop.cEg) (.slow 4 52 0 c1) tr ∧
+      replyOf (.slow 4 52 0 c1) (.ext ej.hop.cEg) = some rc ∧
+      followReply mac net now src ej.ia 0 (.ext ej.hop.cEg) rc = .delivered src trr cr :=
+  up_expired_reply_run mac net now src dst core ts hWF hUp hSR bU βj top r1 ej r2 x exp' hcU hcD hβ
+    hsrc hdst hnd hexpU hexp' fuel
+
+/-- a stopped packet is only ever answered by the AS that stopped it, over the link it came in on:
+    `followReply` starts at the neighbour on that link (definitional, recorded for the reader) -/
+theorem reply_leaves_on_ingress_link (mac : MacFn) (net : Net) (now src a r i : Nat) (rc : Cursor)
+    (f g : Iface) (hf : (net a).iface i = some f) (hg : (net f.nbr).iface f.nbrIf = some g) :
+    followReply mac net now src a r (.ext i) rc =
+      run mac net now a src (fuelFor rc) f.nbr g.owner (.ext f.nbrIf) rc [(a, i), (f.nbr, f.nbrIf)] := by
+  simp [followReply, hf, hg]
 
 end Scion.C10
